@@ -64,6 +64,7 @@ pub fn replay(path: &str) -> i32 {
 pub fn child(args: &[String]) -> i32 {
     match args.first().map(|s| s.as_str()) {
         Some("c18") => c18::child(&args[1..]),
+        Some("fullstderr") => crate::common::child_fullstderr(&args[1..]),
         Some("c03base") | Some("c03sched") | Some("c03setter") | Some("c03proc") => c03::child(args),
         _ => 2,
     }
